@@ -53,6 +53,23 @@ theorem legendre_swing (p : ℕ) [hp : Fact p.Prime] :
     have e : q / 2 / p = q / p / 2 := by rw [Nat.div_div_eq_div_mul, Nat.div_div_eq_div_mul, Nat.mul_comm]
     rw [e]; omega
 
+/-- the swing exponent as the sum Σ_{k=1}^{f} (⌊q/p^k⌋ mod 2) -/
+theorem swExp_eq_sum (p : ℕ) : ∀ f q, swExp p f q = ∑ k ∈ Finset.Ico 1 (f + 1), (q / p ^ k) % 2 := by
+  intro f
+  induction f with
+  | zero => intro q; simp [swExp]
+  | succ f ih =>
+    intro q
+    rw [swExp_succ, ih (q / p), Finset.sum_Ico_eq_sum_range, Finset.sum_Ico_eq_sum_range]
+    simp only [Nat.add_sub_cancel]
+    rw [Finset.sum_range_succ' _ f]
+    simp only [Nat.add_zero, pow_one]
+    rw [Nat.add_comm]
+    congr 1
+    apply Finset.sum_congr rfl
+    intro k _
+    rw [Nat.div_div_eq_div_mul, show 1 + (k + 1) = (1 + k) + 1 by omega, pow_succ' p (1 + k)]
+
 /-- p^(swing exponent) never exceeds the argument -/
 theorem pow_swExp_le (p : ℕ) (hp : 2 ≤ p) : ∀ f q, 1 ≤ q → p ^ swExp p f q ≤ q := by
   intro f
@@ -253,14 +270,14 @@ theorem padicValNat_nprod (e : ℕ → ℕ) (q : ℕ) [hq : Fact q.Prime] :
     simp only [nprod]
     have hrest : nprod (fun x => x ^ e x) c (lo + 1) ≠ 0 := Nat.pos_iff_ne_zero.1 (nprod_pos _ (ppow_pos e) c (lo + 1))
     by_cases hlo : lo.Prime
-    · haveI : Fact lo.Prime := ⟨hlo⟩
+    · have : Fact lo.Prime := ⟨hlo⟩
       rw [if_pos hlo, padicValNat.mul (Nat.pos_iff_ne_zero.1 (ppow_pos e lo hlo)) hrest, ih (lo + 1), padicValNat.pow]
       by_cases heq : q = lo
       · subst heq
         rw [padicValNat.self hq.out.one_lt]
         have h1 : ¬ (q + 1 ≤ q ∧ q < q + 1 + c) := by omega
         have h2 : q ≤ q ∧ q < q + (c + 1) := by omega
-        simp [h1, h2]
+        simp [h2]
       · rw [padicValNat_primes heq]
         have : (lo + 1 ≤ q ∧ q < lo + 1 + c) ↔ (lo ≤ q ∧ q < lo + (c + 1)) := by omega
         simp only [this, Nat.mul_zero, Nat.zero_add]
@@ -279,7 +296,7 @@ theorem padicValNat_oddPart (q m : ℕ) [hq : Fact q.Prime] (hm : m ≠ 0) :
   · simp only [h2, if_false]
     have hop : oddPart m ≠ 0 := by omega
     conv_rhs => rw [ht]
-    haveI : Fact (Nat.Prime 2) := ⟨Nat.prime_two⟩
+    have : Fact (Nat.Prime 2) := ⟨Nat.prime_two⟩
     rw [padicValNat.mul (by positivity) hop, padicValNat.pow, padicValNat_primes h2]
     omega
 
@@ -293,7 +310,7 @@ theorem oddPart_factorial_swing (n c : ℕ) (hn : n < 2 ^ 64) (hc : n < 3 + c) :
   apply Nat.eq_of_factorization_eq h1 (Nat.mul_ne_zero h3 (pow_ne_zero _ h2))
   intro p
   by_cases hp : p.Prime
-  · haveI : Fact p.Prime := ⟨hp⟩
+  · have : Fact p.Prime := ⟨hp⟩
     rw [Nat.factorization_def _ hp, Nat.factorization_def _ hp, padicValNat.mul h3 (pow_ne_zero _ h2),
       padicValNat.pow, padicValNat_nprod, padicValNat_oddPart p _ (Nat.factorial_ne_zero n),
       padicValNat_oddPart p _ (Nat.factorial_ne_zero (n / 2))]
@@ -307,5 +324,86 @@ theorem oddPart_factorial_swing (n c : ℕ) (hn : n < 2 ^ 64) (hc : n < 3 + c) :
       · simp only [hin, if_false]
         rw [swExp_lt p 64 n (by omega)] at hl; omega
   · rw [Nat.factorization_eq_zero_of_not_prime _ hp, Nat.factorization_eq_zero_of_not_prime _ hp]
+
+
+/-! ## limb_apprsqrt and the three ranges of mpz_2multiswing_1 -/
+
+/-- oddfac_1.c:133-134 "It gives: x <= limb_apprsqrt (x) ^ 2 < x * 9/4" -/
+theorem apprsqrt_bounds (x : ℕ) (hx : 25 ≤ x) :
+    x ≤ limb_apprsqrt x * limb_apprsqrt x ∧ 4 * (limb_apprsqrt x * limb_apprsqrt x) < 9 * x := by
+  unfold limb_apprsqrt
+  have h1 : 2 ^ (x - 1).log2 ≤ x - 1 := Nat.log2_self_le (by omega)
+  have h2 : x - 1 < 2 ^ ((x - 1).log2 + 1) := Nat.lt_log2_self
+  generalize (x - 1).log2 = s at *
+  have hs : 4 ≤ s := by
+    by_contra hlt
+    have : 2 ^ (s + 1) ≤ 2 ^ 4 := Nat.pow_le_pow_right (by norm_num) (by omega)
+    omega
+  rcases Nat.even_or_odd' s with ⟨k, rfl | rfl⟩
+  · have e1 : 2 * k / 2 = k := by omega
+    have e2 : (2 * k - 1) / 2 = k - 1 := by omega
+    simp only [e1, e2]
+    obtain ⟨m, rfl⟩ : ∃ m, k = m + 1 := ⟨k - 1, by omega⟩
+    simp only [Nat.add_sub_cancel]
+    have p1 : 2 ^ (m + 1) = 2 * 2 ^ m := by rw [pow_succ]; ring
+    have p2 : 2 ^ (2 * (m + 1)) = 4 * (2 ^ m * 2 ^ m) := by
+      rw [show 2 * (m + 1) = m + m + 2 by ring, pow_add, pow_add]; ring
+    have p3 : 2 ^ (2 * (m + 1) + 1) = 8 * (2 ^ m * 2 ^ m) := by rw [pow_succ, p2]; ring
+    rw [p2] at h1; rw [p3] at h2; rw [p1]
+    generalize 2 ^ m = A at *
+    have e : (2 * A + A) * (2 * A + A) = 9 * (A * A) := by ring
+    rw [e]
+    generalize A * A = Q at *
+    constructor <;> omega
+  · have e1 : (2 * k + 1) / 2 = k := by omega
+    have e2 : (2 * k + 1 - 1) / 2 = k := by omega
+    simp only [e1, e2]
+    have p2 : 2 ^ (2 * k + 1) = 2 * (2 ^ k * 2 ^ k) := by
+      rw [show 2 * k + 1 = k + k + 1 by ring, pow_add, pow_add]; ring
+    have p3 : 2 ^ (2 * k + 1 + 1) = 4 * (2 ^ k * 2 ^ k) := by rw [pow_succ, p2]; ring
+    rw [p2] at h1; rw [p3] at h2
+    generalize 2 ^ k = A at *
+    have e : (A + A) * (A + A) = 4 * (A * A) := by ring
+    rw [e]
+    generalize A * A = Q at *
+    constructor <;> omega
+
+theorem swing_ranges_small : ∀ n < 100, 25 ≤ n → nb (limb_apprsqrt n) + 1 ≤ nb (n / 3) := by
+  decide +kernel
+
+/-- oddfac_1.c:232 `ASSERT (s <= n_to_bit (n / 3))` (after `s++`) -/
+theorem swing_ranges (n : ℕ) (h26 : 25 ≤ n) : nb (limb_apprsqrt n) + 1 ≤ nb (n / 3) := by
+  by_cases hsmall : n < 100
+  · exact swing_ranges_small n hsmall h26
+  · obtain ⟨h1, h2⟩ := apprsqrt_bounds n h26
+    generalize limb_apprsqrt n = r at *
+    have hr : 10 ≤ r := by
+      by_contra hlt
+      have : r * r ≤ 9 * 9 := Nat.mul_le_mul (by omega) (by omega)
+      omega
+    have h3 : 3 * r + 12 ≤ n := by nlinarith
+    rw [le_nb_iff _ _ (by omega)]
+    rw [bit_to_n_eq, nb_eq]; omega
+
+/-- n/x for the ranges (n/3, n/2] and (n/2, n] -/
+theorem div_eq_two {n x : ℕ} (h1 : n / 3 < x) (h2 : x ≤ n / 2) : n / x = 2 :=
+  Nat.div_eq_of_lt_le (by omega) (by omega)
+theorem div_eq_one {n x : ℕ} (h1 : n / 2 < x) (h2 : x ≤ n) : n / x = 1 :=
+  Nat.div_eq_of_lt_le (by omega) (by omega)
+
+/-- an odd prime power below an even n is at most n - 1 -/
+theorem pow_swExp_le_pred (p n : ℕ) (hp : p.Prime) (hp2 : p ≠ 2) (hn : 2 ≤ n) (he : n % 2 = 0) :
+    p ^ swExp p 64 n ≤ n - 1 := by
+  have h := pow_swExp_le p hp.two_le 64 n (by omega)
+  have hodd : Odd (p ^ swExp p 64 n) := (hp.odd_of_ne_two hp2).pow
+  have : p ^ swExp p 64 n % 2 = 1 := Nat.odd_iff.1 hodd
+  omega
+
+theorem nb_le_succ (n : ℕ) (h5 : 5 ≤ n) : bit_to_n (nb n) ≤ n ∧ n < bit_to_n (nb n + 1) := by
+  constructor
+  · exact (le_nb_iff (nb n) n h5).1 (Nat.le_refl _)
+  · by_contra h
+    have := (le_nb_iff (nb n + 1) n h5).2 (by omega)
+    omega
 
 end Mpir.Numth
